@@ -76,12 +76,22 @@ func parseRaceLog(text string) []string {
 			if i := strings.Index(part, "Goroutine "); i >= 0 {
 				part = part[:i]
 			}
-			f := "?"
+			// prefer the first frame in package torrent (it names the API call or loop handler), else the first rain frame
+			f, first := "", "?"
 			for _, line := range strings.Split(part, "\n") {
 				if m := raceFrame.FindStringSubmatch(line); m != nil && !strings.Contains(m[1], "verifharness") && !strings.Contains(m[1], "Verif") {
-					f = strings.TrimPrefix(m[1], "github.com/cenkalti/rain/v2/")
-					break
+					name := strings.TrimPrefix(m[1], "github.com/cenkalti/rain/v2/")
+					if first == "?" {
+						first = name
+					}
+					if strings.HasPrefix(name, "torrent.") {
+						f = name
+						break
+					}
 				}
+			}
+			if f == "" {
+				f = first
 			}
 			firsts = append(firsts, f)
 		}
